@@ -97,14 +97,16 @@ def _observe(job):
                 from copulas.multivariate import VineCopula
                 m = VineCopula(vtype)
                 cb.select_copula = orig
-                m.fit(past, truncated=max(1, past.shape[1] - 1))
-                st_ = np.random.get_state()
-                m.sample(1)
-                np.random.set_state(st_)
+                with V.time_limit(90):
+                    m.fit(past, truncated=max(1, past.shape[1] - 1))
+                    st_ = np.random.get_state()
+                    m.sample(1)
+                    np.random.set_state(st_)
                 cb.select_copula = recorder
                 calls.clear()
                 poison([(j, j) for j in range(1, n + 1)], 0.0)
-                m.fit(df, truncated=trunc)
+                with V.time_limit(90):
+                    m.fit(df, truncated=trunc)
         finally:
             cb.select_copula = orig
         struct, adm = V.structure(m.trees)
